@@ -262,7 +262,8 @@ pub struct ReplayFile {
 }
 
 pub fn write_replay(prop: &str, engine: &str, f: &Failure, case: &Value) -> String {
-    let _ = std::fs::create_dir_all("/verif/out/replay");
+    let rdir = std::env::var("VERIF_REPLAY_DIR").unwrap_or_else(|_| "/verif/out/replay".to_string());
+    let _ = std::fs::create_dir_all(&rdir);
     let rf = ReplayFile {
         property: prop.to_string(),
         engine: engine.to_string(),
@@ -273,7 +274,7 @@ pub fn write_replay(prop: &str, engine: &str, f: &Failure, case: &Value) -> Stri
     let body = serde_json::to_string_pretty(&rf).unwrap();
     let mut h = std::collections::hash_map::DefaultHasher::new();
     body.hash(&mut h);
-    let path = format!("/verif/out/replay/{}-{:016x}.json", prop, h.finish());
+    let path = format!("{}/{}-{:016x}.json", rdir, prop, h.finish());
     std::fs::write(&path, body).unwrap();
     path
 }
@@ -290,7 +291,8 @@ pub struct EvidenceIn<'a> {
 }
 
 pub fn write_evidence(e: &EvidenceIn, acc: &Acc, wall_s: f64, violations: u32) {
-    let _ = std::fs::create_dir_all("/verif/evidence");
+    let edir = std::env::var("VERIF_EVIDENCE_DIR").unwrap_or_else(|_| "/verif/evidence".to_string());
+    let _ = std::fs::create_dir_all(&edir);
     let mut cov = json!({
         "evaluations": acc.evaluations,
         "distinct_nontrivial": acc.shapes.len(),
@@ -322,7 +324,7 @@ pub fn write_evidence(e: &EvidenceIn, acc: &Acc, wall_s: f64, violations: u32) {
         "wall_s": wall_s,
         "violations": violations,
     });
-    std::fs::write(format!("/verif/evidence/{}.json", e.prop), serde_json::to_string_pretty(&doc).unwrap()).unwrap();
+    std::fs::write(format!("{}/{}.json", edir, e.prop), serde_json::to_string_pretty(&doc).unwrap()).unwrap();
 }
 
 /// Replay the committed regression corpus of a property. Each file is a
